@@ -49,6 +49,9 @@ var targets = []target{
 	{"runtime", "Sov", ""},
 	{"runtime", "Soz", ""},
 	{"runtime", "nestedRecursionLimit", ""},
+	{"runtime", "SizeInputToOptions", ""},
+	{"runtime", "MarshalInputToOptions", ""},
+	{"runtime", "UnmarshalInputToOptions", ""},
 	{"runtime", "EncodeVarint", "10"},
 	{"runtime", "Skip", "dAtA.length + 1; 11; 11; 11"},
 	{"generator", "KeySize", "5"},
@@ -154,7 +157,79 @@ var structs = map[string]structInfo{
 	"durationpb.Duration":   {"Timepb.SN", map[string]string{"Seconds": "sec", "Nanos": "nanos"}},
 }
 
+// records: struct types of other packages that appear as parameters / results of translated functions (option and
+// input structs). Only their fields of integer and boolean type are kept (by name); fields of any other type
+// (interfaces, byte slices, marker types) are dropped, and so are the elements of a composite literal that set them.
+var records = map[string]structInfo{}
+var recordDecls = map[string]string{}
+
+func recordOf(t types.Type) (structInfo, bool) {
+	// a defined struct type, or an alias of a struct type (protoiface declares its input structs as aliases)
+	type named interface {
+		Obj() *types.TypeName
+		Underlying() types.Type
+	}
+	var n named
+	switch x := t.(type) {
+	case *types.Named:
+		n = x
+	case *types.Alias:
+		n = x
+	default:
+		return structInfo{}, false
+	}
+	if n.Obj().Pkg() == nil {
+		return structInfo{}, false
+	}
+	st, ok := n.Underlying().(*types.Struct)
+	if !ok {
+		return structInfo{}, false
+	}
+	key := n.Obj().Pkg().Name() + "_" + n.Obj().Name()
+	if si, ok := records[key]; ok {
+		return si, true
+	}
+	si := structInfo{lean: "Rec." + key, fields: map[string]string{}}
+	var decl strings.Builder
+	fmt.Fprintf(&decl, "/-- %s.%s (integer and boolean fields only) -/\nstructure %s where\n", n.Obj().Pkg().Path(), n.Obj().Name(), key)
+	for i := 0; i < st.NumFields(); i++ {
+		f := st.Field(i)
+		ty := ""
+		if k, ok := basicKind(f.Type()); ok {
+			ty = "Nat"
+			if k.signed {
+				ty = "Int"
+			}
+		} else if isBool(f.Type()) {
+			ty = "Bool"
+		}
+		if ty == "" {
+			continue
+		}
+		si.fields[f.Name()] = f.Name()
+		z := "0"
+		if ty == "Bool" {
+			z = "false"
+		}
+		fmt.Fprintf(&decl, "  %s : %s := %s\n", lname(f.Name()), ty, z)
+	}
+	if len(si.fields) == 0 {
+		return structInfo{}, false
+	}
+	decl.WriteString("  deriving DecidableEq, Repr\n")
+	records[key] = si
+	recordDecls[key] = decl.String()
+	return si, true
+}
+
 func knownStruct(t types.Type) (structInfo, bool) {
+	if si, ok := knownStruct0(t); ok {
+		return si, true
+	}
+	return recordOf(t)
+}
+
+func knownStruct0(t types.Type) (structInfo, bool) {
 	n, ok := t.(*types.Named)
 	if !ok {
 		return structInfo{}, false
@@ -403,6 +478,9 @@ func (f *fnTr) expr(e ast.Expr) ex {
 			}
 			fl, ok := si.fields[kv.Key.(*ast.Ident).Name]
 			if !ok {
+				if strings.HasPrefix(si.lean, "Rec.") {
+					continue // a field of a type outside the fragment: dropped (see `records`)
+				}
 				bad(kv.Pos(), "unknown field in literal")
 			}
 			names = append(names, fl)
@@ -417,12 +495,17 @@ func (f *fnTr) expr(e ast.Expr) ex {
 			var parts []string
 			for _, fl := range all {
 				val := "0"
+				set := false
 				for i, n := range names {
 					if n == fl {
 						val = v[i]
+						set = true
 					}
 				}
-				parts = append(parts, fl+" := "+val)
+				if !set && strings.HasPrefix(si.lean, "Rec.") {
+					continue // the structure's default (zero value)
+				}
+				parts = append(parts, lname(fl)+" := "+val)
 			}
 			return "({ " + strings.Join(parts, ", ") + " } : " + si.lean + ")"
 		}, &tmpN)
@@ -1461,6 +1544,18 @@ func main() {
 	var b strings.Builder
 	b.WriteString("/-\n  GENERATED by /verif/tools/go2lean from the Go source of /repo's working tree — do not edit.\n" +
 		"  Shallow embedding of the listed Go functions (DESIGN §A.2, \"translated functions\").\n-/\nimport Pulsar.GoSem\nset_option linter.unusedVariables false\nnamespace Pulsar.Xf\nopen Pulsar\n\n")
+	if len(recordDecls) > 0 {
+		var rk []string
+		for k := range recordDecls {
+			rk = append(rk, k)
+		}
+		sort.Strings(rk)
+		b.WriteString("namespace Rec\n")
+		for _, k := range rk {
+			b.WriteString(recordDecls[k] + "\n")
+		}
+		b.WriteString("end Rec\n\n")
+	}
 	done := map[string]bool{}
 	var emit func(k string)
 	emit = func(k string) {
